@@ -139,6 +139,32 @@ def _liquidation_rows(draw: Any, rows: List[Dict[str, Any]]) -> List[Dict[str, A
 
 
 @st.composite
+def _dust_on_big_lot(draw: Any, cfg: gen.GenCfg) -> Dict[str, Any]:
+    """A short single-account history in which a large holding gives up a sliver only: 1-3 small lots, then a lot of hundreds of
+    units, then one disposal of everything the small lots hold plus 1e-11 .. 1e-9.  Under FIFO (and under HIFO / LOFO when the
+    big lot ranks last) the big lot's sold percentage is below rp2's 13-decimal resolution although it *is* consumed."""
+    ex, ho = gen.EXCHANGE_NAMES[0], gen.HOLDER_NAMES[0]
+    us = gen._year_start_us(draw(st.integers(2016, 2021))) + draw(st.integers(0, 300)) * gen.DAY_US
+    rows: List[Dict[str, Any]] = []
+    small_total = 0
+    row_id = cfg.first_row
+    for i in range(draw(st.integers(1, 3))):
+        units = draw(st.integers(1, 5000)) * (gen.UNIT // 1000)
+        small_total += units
+        rows.append({"table": "in", "row": row_id, "ts": model.fmt_ts(us, 0), "ex": ex, "ho": ho, "type": draw(st.sampled_from(["buy", "buy", "interest", "gift"])), "price": gen.units_to_str(draw(st.integers(1, 900)) * gen.UNIT), "crypto_in": gen.units_to_str(units), "uid": f"u{i}"})
+        row_id += 1
+        us += draw(st.integers(1, 40)) * gen.DAY_US
+    big = draw(st.integers(200, 3000)) * gen.UNIT
+    big_price = draw(st.sampled_from([gen.UNIT // 100, 1000 * gen.UNIT]))  # far below / above the small lots: last for HIFO resp. LOFO
+    rows.append({"table": "in", "row": row_id, "ts": model.fmt_ts(us, 0), "ex": ex, "ho": ho, "type": "buy", "price": gen.units_to_str(big_price), "crypto_in": gen.units_to_str(big), "uid": "big"})
+    row_id += 1
+    us += draw(st.integers(1, 400)) * gen.DAY_US
+    sliver = draw(st.sampled_from([1, 1, 3, 50, 100]))
+    rows.append({"table": "out", "row": row_id, "ts": model.fmt_ts(us, 0), "ex": ex, "ho": ho, "type": draw(st.sampled_from(["sell", "gift", "lost"])), "price": gen.units_to_str(draw(st.integers(1, 900)) * gen.UNIT), "out": gen.units_to_str(small_total + sliver), "fee": "0", "uid": "sliver"})
+    return {"asset": cfg.asset, "exchanges": [ex], "holders": [ho], "rows": rows}
+
+
+@st.composite
 def file_case(
     draw: Any,
     countries: Tuple[str, ...] = ("us",),
@@ -178,7 +204,7 @@ def file_case(
         elif flavour == "disposal_years":
             overrides.update(ops=("out", "out", "out", "in"), tie_prob=0.05)
         cfg = gen.GenCfg(**{**hist.__dict__, **overrides})
-        generated = draw(gen.history(cfg))
+        generated = draw(_dust_on_big_lot(cfg)) if flavour == "dust_on_big_lot" else draw(gen.history(cfg))
         if flavour == "fully_sold":
             generated["rows"].extend(_liquidation_rows(draw, generated["rows"]))
         raw = to_raw(generated["rows"])
